@@ -141,7 +141,7 @@ theorem holds_of_clauses (fs : List Field) (vs : List Val) (h : inDomain fs vs =
   exact hcl (f, v) hfv r hrend
 
 /-- **C01 in full, F-notation floats included.** For every layout and value list admitted by
-`Spec.C01.inDomain` whose non-missing floats are finite doubles below `2^1013` in F-notation
+`Spec.C01.inDomain` whose non-missing floats are finite doubles (any of them) in F-notation
 fields of at most 323 decimals, the model's write / read / re-write cycle satisfies the whole
 of `Spec.C01.holds`: values read back are the canonical forms, the re-written text is
 identical, and every float is written in the configured dialect, within half a unit of its
